@@ -93,6 +93,23 @@ class FunctionInfo:
         return "<fn %s>" % self.fq
 
 
+def clone(n):
+    """Deep copy of an AST (fields and positions only - NOT the `_parent` back links, which would drag the whole module
+    along as copy.deepcopy does)."""
+    if isinstance(n, ast.AST):
+        new = n.__class__()
+        for f in n._fields:
+            if hasattr(n, f):
+                setattr(new, f, clone(getattr(n, f)))
+        for a in n._attributes:
+            if hasattr(n, a):
+                setattr(new, a, getattr(n, a))
+        return new
+    if isinstance(n, list):
+        return [clone(x) for x in n]
+    return n
+
+
 class ClassInfo:
     def __init__(self, module, node):
         self.module = module
